@@ -27,7 +27,8 @@ def classify(case, impl, model, oracle):
 CHECK = {
     "property": "C21",
     "props": "Props/C21.v",
-    "theorems": ["c21_exact", "c21_err", "c21_severity"],
+    "theorems": ["c21_parse_real_is_parser", "c21_parse_real_spec", "c21_exact_real", "c21_err_real",
+                 "c21_exact", "c21_err", "c21_severity"],
     "allowed_axioms": [],
     "correspondence": {"impl_bin": "impl_zone", "extract": "Extract/ExZone.v", "driver": "run_zone.ml",
                        "runner_name": "zone"},
@@ -50,10 +51,11 @@ CHECK = {
         "correspondence: checks/c21.py + checks/zonegen.py generators, harness/src/bin/impl_zone.rs, ocaml/run_zone.ml, line diff in tools/qv.py",
         "tools/gen/zoneconsts.py re-extracts Type::{A,NS,CNAME,SOA,MX,AAAA}, Class::{IN,CH} and Label::asterisk() from the source",
         "the zone model of C06/C20 (same abstractions); HashSet<ValidationIssue> as a list compared as a set",
-        "Name::try_from_uncompressed_all and Rdata::equals are parameters of model and spec (C14 / C19 are about them); the "
-        "runner instantiates them with parse_name_simple / req_simple",
+        "Name::try_from_uncompressed_all and Rdata::equals are no longer parameters: the *_real theorems use the proved models "
+        "Model/NameWire.v parse_uncompressed_name (C14) + label_at and Model/RdataM.v equals (C19) on the model side, and the C14 "
+        "decoding relation / the RFC characterisation spec_equals on the specification side; the runner runs exactly these",
     ],
-    "assumptions": ["Rdata::equals is transitive for every (class, type)",
+    "assumptions": ["every RDATA is a string of octets (elements < 256: the u8 type) — the domain of C14's and C19's theorems",
                     "the zone is built only by HashMapTreeZone::new and add (any glue policy)"],
 }
 
@@ -62,8 +64,8 @@ MANIFEST = {
                    "exactly when the flat-record reference checker does, and otherwise a list with exactly the reference "
                    "checker's set of issues (names case-insensitively); only MissingMxAddress and NsAtWildcard are warnings. "
                    "Model tied to the code by a differential run over 15000 generated zones."),
-    "level_note": ("Trusted: Coq kernel, extraction, the model's correspondence to the Rust code (differentially tested), name parsing "
-                   "and RDATA equality taken as parameters."),
+    "level_note": ("Trusted: Coq kernel, extraction, the model's correspondence to the Rust code (differentially tested). Name parsing "
+                   "and RDATA equality are the proved models of C14 / C19 (real instances), not parameters."),
     "technique": "machine-checked proof in Coq (validation model vs flat-record reference checker, reusing the C06/C20 refinement) + model/implementation correspondence check",
     "design_ref": "DESIGN.md §4 C21",
 }
